@@ -8,7 +8,7 @@
    its failed credit check and its wait while the grant is applied (the interleaving CreditWake.tla
    shows to be the dangerous one). *)
 EXTENDS Integers, Sequences, TLC, Json
-CONSTANTS Depth, DcShift, Hook, Side, Mms     \* Mms > 0: the peer's max-message-size, so that SendM is split at link level (one credit, several transfers)     \* Side: "client" | "listener"
+CONSTANTS Depth, DcShift, Hook, Side, Pipelined, Mms     \* Mms > 0: the peer's max-message-size, so that SendM is split at link level (one credit, several transfers)     \* Side: "client" | "listener"
 
 Alphabet == {"Send", "SendM", "Grant0", "Grant1", "Grant2", "Grant1Lag", "Grant2Unset", "Drain1", "Drain2", "Echo"}
 VARIABLES script
@@ -27,8 +27,17 @@ Prefix == << [e |-> "Shifts", out |-> 0, inn |-> 0, dc_out |-> DcShift, dc_in |-
    ELSE << [e |-> "AAccept", cfg |-> [mfs |-> 512]], [e |-> "PHeader", kind |-> "amqp"], [e |-> "PFrame", perf |-> "open", ch |-> 0, f |-> [mfs |-> 512, chmax |-> 10]],
            [e |-> "AAcceptSession", s |-> "s1", cfg |-> [noi |-> 1000, iw |-> 100, ow |-> 100]],
            [e |-> "PFrame", perf |-> "begin", ch |-> 3, f |-> [rch |-> -1, noi |-> 7, iw |-> 5000, ow |-> 100]],
-           [e |-> "AAcceptLink", l |-> "L1", s |-> "s1", cfg |-> [idc |-> 1000]] >>)
+           [e |-> "AAcceptLink", l |-> "L1", s |-> "s1", cfg |-> [idc |-> 1000], nosettle |-> FALSE] >>)
   \o << [e |-> "PFrame", perf |-> "attach", ch |-> 3, f |-> [name |-> "L1", h |-> 5, role |-> "r", snd |-> 1, rcv |-> 0, mms |-> IF Mms > 0 THEN Mms ELSE -1]] >>
+\* Pipelined (listener): the peer's attach and ten flows lowering the credit from 10 to 1 are all there before the application accepts the link;
+\* the flow that counts is the last one
+PrefixP == << [e |-> "Shifts", out |-> 0, inn |-> 0, dc_out |-> DcShift, dc_in |-> 0],
+              [e |-> "AAccept", cfg |-> [mfs |-> 512]], [e |-> "PHeader", kind |-> "amqp"], [e |-> "PFrame", perf |-> "open", ch |-> 0, f |-> [mfs |-> 512, chmax |-> 10]],
+              [e |-> "AAcceptSession", s |-> "s1", cfg |-> [noi |-> 1000, iw |-> 100, ow |-> 100]],
+              [e |-> "PFrame", perf |-> "begin", ch |-> 3, f |-> [rch |-> -1, noi |-> 7, iw |-> 5000, ow |-> 100]],
+              [e |-> "PFrame", perf |-> "attach", ch |-> 3, f |-> [name |-> "L1", h |-> 5, role |-> "r", snd |-> 1, rcv |-> 0, mms |-> IF Mms > 0 THEN Mms ELSE -1]] >>
+           \o [i \in 1..10 |-> LFlow(-1, 11 - i, FALSE, FALSE)]
+           \o << [e |-> "AAcceptLink", l |-> "L1", s |-> "s1", cfg |-> [idc |-> 1000]] >>
 RECURSIVE Body(_, _, _)
 Body(sc, i, ns) ==
   IF i > Len(sc) THEN <<>> ELSE
@@ -50,6 +59,6 @@ HookBody == << [e |-> "HookArm", name |-> "credit.after_failed_check"],
                [e |-> "HookRelease", name |-> "credit.after_failed_check"] >>
 Suffix == << LFlow([seen |-> 0], 20, FALSE, FALSE), LFlow([seen |-> 0], 20, FALSE, FALSE) >>
 Done == Len(script) = Depth
-Emit == Done => PrintT(<<"SCRIPT", ToJson([side |-> Side, id |-> <<Side, DcShift, Hook, Mms>> \o script,
-                           ev |-> Prefix \o (IF Hook THEN HookBody ELSE <<>>) \o Body(script, 1, IF Hook THEN 1 ELSE 0) \o (IF Hook /\ Depth > 0 THEN <<>> ELSE Suffix)])>>)
+Emit == Done => PrintT(<<"SCRIPT", ToJson([side |-> Side, id |-> <<Side, DcShift, Hook, Mms, Pipelined>> \o script,
+                           ev |-> (IF Pipelined THEN PrefixP ELSE Prefix) \o (IF Hook THEN HookBody ELSE <<>>) \o Body(script, 1, IF Hook THEN 1 ELSE 0) \o (IF Hook /\ Depth > 0 THEN <<>> ELSE Suffix)])>>)
 =============================================================================
